@@ -341,13 +341,13 @@ class PM:
 # ---------------------------------------------------------------------- helpers
 def walk_no_nested(node: ast.AST) -> Iterator[ast.AST]:
     """ast.walk that does not descend into nested function/class definitions."""
-    stack = list(ast.iter_child_nodes(node))
+    stack = list(reversed(list(ast.iter_child_nodes(node))))
     while stack:
         n = stack.pop()
         yield n
         if isinstance(n, (ast.FunctionDef, ast.AsyncFunctionDef, ast.ClassDef, ast.Lambda)):
             continue
-        stack.extend(ast.iter_child_nodes(n))
+        stack.extend(reversed(list(ast.iter_child_nodes(n))))      # source (pre-)order
 
 
 def calls_in(node: ast.AST, nested: bool = True) -> list[ast.Call]:
